@@ -146,6 +146,8 @@ def persistent_state_sites(model: Model) -> List[Site]:
                     why = _default_escapes(model, fi, arg_.arg, 3, set())
                     if why is not None:
                         out.append(Site(fi, why[0], f"{fi.qual}({arg_.arg}={ast.unparse(dflt_)})", f"mutable default argument {why[1]}"))
+        # lazily evaluated iterators that outlive the expression creating them
+        out += _lazy_iterator_sites(fi)
         # memoisation
         for d in fi.decorators:
             if d in CACHE_DECORATORS:
@@ -156,6 +158,52 @@ def persistent_state_sites(model: Model) -> List[Site]:
                 for t in n.targets:
                     if isinstance(t, ast.Attribute) and isinstance(t.value, ast.Name) and t.value.id in fi.pos_params[(1 if fi.cls is not None else 0):] and t.attr.startswith("_") and t.attr not in NODE_ATTRS_OWNED:
                         out.append(Site(fi, n, f"<{t.value.id}>.{t.attr}", "memo attribute written on an argument object"))
+    return out
+
+
+_LAZY_MAKERS = {"map", "filter", "zip", "iter"}
+_CONSUMERS = {"any", "all", "next", "sum", "min", "max", "list", "tuple", "set", "dict", "frozenset", "sorted", "enumerate", "zip", "reversed", "map", "filter", "len", "iter", "bytearray", "bytes", "str", "chain"}
+_CONSUMING_METHODS = {"join", "extend", "update", "fromkeys", "from_iterable"}
+
+
+def _lazy_iterator_sites(fi: FuncInfo) -> List["Site"]:
+    """A generator expression / map / filter / zip computes its elements when it is *consumed*.  Created and consumed
+    in one expression it is just a loop; kept - in a variable consumed later, in a container, an attribute, a
+    returned value - its elements are computed against whatever the state is by then, and a second reader finds
+    it empty.  Reported: lazy iterators stored in containers / attributes, and lazy iterators whose element
+    expression calls something and that are not consumed where they are created."""
+    from .model import parent as _parent
+
+    out: List[Site] = []
+    for n in own_nodes(fi):
+        is_gen = isinstance(n, ast.GeneratorExp)
+        is_maker = isinstance(n, ast.Call) and isinstance(n.func, ast.Name) and n.func.id in _LAZY_MAKERS
+        if not (is_gen or is_maker):
+            continue
+        par = _parent(n)
+        if isinstance(par, (ast.For, ast.AsyncFor)) and par.iter is n:
+            continue
+        if isinstance(par, ast.comprehension) and par.iter is n:
+            continue
+        if isinstance(par, ast.Starred):
+            continue
+        if isinstance(par, ast.Call) and (n in par.args or any(k.value is n for k in par.keywords)):
+            f = par.func
+            nm = f.id if isinstance(f, ast.Name) else (f.attr if isinstance(f, ast.Attribute) else None)
+            if (isinstance(f, ast.Name) and nm in _CONSUMERS) or (isinstance(f, ast.Attribute) and nm in _CONSUMING_METHODS):
+                continue
+            if isinstance(f, ast.Attribute) and nm in ("append", "insert", "add", "setdefault", "appendleft", "put"):
+                out.append(Site(fi, stmt_of(n), f"{ast.unparse(n)[:60]}", "a lazy iterator (generator expression / map / filter / zip) is stored in a container: it is computed when - and only the first time - somebody reads it"))
+                continue
+        calls_inside = any(isinstance(x, ast.Call) for x in ast.walk(n.elt if is_gen else n) if x is not n) or (is_maker and n.func.id in ("map", "filter"))
+        if isinstance(par, ast.Assign) and par.value is n and any(isinstance(t, (ast.Attribute, ast.Subscript)) for t in par.targets):
+            out.append(Site(fi, par, f"{ast.unparse(n)[:60]}", "a lazy iterator is stored in an attribute / container slot: it is computed when - and only the first time - somebody reads it"))
+            continue
+        if isinstance(par, (ast.List, ast.Tuple, ast.Set, ast.Dict)):
+            out.append(Site(fi, stmt_of(n), f"{ast.unparse(n)[:60]}", "a lazy iterator is placed in a container literal"))
+            continue
+        if isinstance(par, (ast.Assign, ast.AnnAssign, ast.Return, ast.NamedExpr)) and calls_inside:
+            out.append(Site(fi, stmt_of(n), f"{ast.unparse(n)[:60]}", "a lazy iterator whose elements are computed by calls is not consumed where it is created: the calls run later, against whatever state holds then (e.g. after a frame was pushed), instead of here"))
     return out
 
 
